@@ -47,10 +47,48 @@ def gen_mixed(rng, size):
     return dict(seed=rng.randint(0, 1000), mod=rng.choice([1, 3, 3, 1 << 20]), entities=ents, pools=[], uops=uops, ext=ext, focus='mixed')
 
 
+def gen_parallel(rng, size):
+    """Parallel single-slot lanes behind one supplier, some behind plain flow controllers, one lane's input blocked from the start and
+    released later: which lane gets the next part depends on how long each has been idle (C08: longest idle first; a lane that has
+    never had a part has been idle since time 0)."""
+    big = size != 'small'
+    ents = [dict(kind='source', cycle=rng.choice([4, 4, 8]), budget=rng.choice([None, 8, 12]), gen_value=8, gen_quality=8, gen_batch=0)]   # 1
+    nid = 1
+    lanes, heads = [], []
+    for _ in range(rng.choice([2, 3, 3])):
+        ups = [1]
+        if rng.random() < 0.35:
+            ents.append(dict(kind='pfc', up=[1]))
+            nid += 1
+            ups = [nid]
+        ents.append(dict(kind=rng.choice(['handler', 'handler', 'processor']), cycle=rng.choice([4, 8, 12, 16]), up=ups))
+        nid += 1
+        lanes.append(nid)
+    ents.append(dict(kind='sink', cycle=0, collect=True, up=list(lanes)))
+    uops, ext = [], [['init']]
+    d = rng.choice(lanes)
+    uops.append([['block', d, 1]])
+    ext.append(['at', 0, 0, 184])
+    uops.append([['block', d, 0]])
+    ext.append(['at', rng.choice([6, 10, 12, 14, 18, 20, 26, 28]), 1, rng.choice([32, 184, 152])])
+    if rng.random() < 0.4:
+        d2 = rng.choice(lanes)
+        t0 = rng.choice([8, 16, 24])
+        uops.append([['block', d2, 1]])
+        ext.append(['at', t0, len(uops) - 1, 32])
+        uops.append([['block', d2, 0]])
+        ext.append(['at', t0 + rng.choice([4, 8, 12]), len(uops) - 1, 184])
+    ext += [['step']] * (rng.randint(40, 90) if not big else rng.randint(90, 200))
+    ext.append(['run', 40 if not big else 160])
+    return dict(seed=rng.randint(0, 1000), mod=rng.choice([1, 3, 3, 1 << 20]), entities=ents, pools=[], uops=uops, ext=ext, focus='parallel')
+
+
 def gen(rng, size='small', focus=None):
-    focus = focus or rng.choice(['plain', 'plain', 'faults', 'resources', 'buffers', 'batches', 'groups', 'gates', 'maint', 'rewire', 'mixed'])
+    focus = focus or rng.choice(['plain', 'plain', 'faults', 'resources', 'buffers', 'batches', 'groups', 'gates', 'maint', 'rewire', 'mixed', 'parallel'])
     if focus == 'mixed':
         return gen_mixed(rng, size)
+    if focus == 'parallel':
+        return gen_parallel(rng, size)
     ents = []
 
     def add(e):
